@@ -177,8 +177,8 @@ def main(argv=None):
         return replay(a.replay)
     contracts_pkg.load_all()
     cs = REGISTRY.for_property(pid)
-    if not cs:
-        print(f"no contracts registered for {pid}")
+    if not cs and not os.path.exists(os.path.join(HERE, 'bounded', pid.lower() + '.py')):
+        print(f"CHECKER-ERROR: no contracts and no bounded module registered for {pid}")
         return 3
     proved_cs = [c for c in cs if not c.trusted and c.mode in ('full', 'slice')]
     bounded_cs = [c for c in cs if c.native]
